@@ -1,6 +1,7 @@
 package props
 
 import (
+	"fmt"
 	"net/url"
 	"sort"
 	"strings"
@@ -215,21 +216,50 @@ func c13Prop(c *sim.Case) {
 	}
 }
 
+// c13Histories: the return-URL clause over whole histories - several browsers, superseded and abandoned logins,
+// crowds, logouts, clock advances, provider misbehaviour and injected store / provider faults (what a failed attempt
+// leaves behind must not end up in the URL a later login returns to). Oracle: every completed login lands, byte for
+// byte, on the URL its session first asked for; every redirect forbids caching.
+type c13Mon struct{ completed int }
+
+func (m *c13Mon) after(h *H, s *step) {
+	if s.R != nil && s.R.IsRedirect() && !s.R.FaultFired() {
+		checkNoCache(h.c, s.R, "redirect-in-history:"+s.Kind)
+	}
+	if s.Kind == "callback" && s.R.IsRedirect() && !h.w.IsLoginRedirect(s.R) {
+		m.completed++
+	}
+}
+
+func c13Histories(c *sim.Case) {
+	ho := genHistOpts(c)
+	ho.judgeReturn = true
+	ops := genOps(c, c01Profile, 30)
+	var mon *c13Mon
+	h1, h2 := runWithFaults(c, ho, ops, func() []monitor { mon = &c13Mon{}; return []monitor{mon} }, 2)
+	if h2 != nil && mon.completed > 0 && h2.w.FiredCount() > 0 || h2 == nil && mon.completed > 1 {
+		c.NonTrivial()
+	}
+	_ = h1
+	c.FP(ho.o.Store, len(ops), fmt.Sprint(ops))
+}
+
 func TestC13(t *testing.T) {
 	r := sim.NewRun(t, "C13")
 	defer r.Finish()
 	if r.Shard%2 == 1 {
 		sim.EnableDebugLogging() // odd shards run with every logging scope at debug level: logging must not change what is done
 	}
-	r.Rule = "client ids (reserved, space, non-ASCII; never ':'), 0-3 extra scopes (RFC 6749 scope-token alphabet; openid supplied by the real loader's defaulting), authorization and callback URIs with and without their own query, requested path?query with reserved characters; the filter config is passed through LocalConfigFile.Validate. Non-trivial = some configured value needs escaping or a URI has its own query; distinct = distinct (client id, scopes, own queries, URL class)."
+	r.Rule = "client ids (reserved, space, non-ASCII; never ':'), 0-3 extra scopes (RFC 6749 scope-token alphabet; openid supplied by the real loader's defaulting), authorization and callback URIs with and without their own query, requested path?query with reserved characters; the filter config is passed through LocalConfigFile.Validate. Part 'histories': the histories of C01 (three browsers, crowds, superseded logins, logouts, clock advances, provider misbehaviour, 1-2 injected store or provider faults), judged only for the return URL of every completed login and for the cache directives of every redirect. Non-trivial = some configured value needs escaping or a URI has its own query; distinct = distinct (client id, scopes, own queries, URL class)."
 	r.Assumptions = []string{"net/url is the independent parser for Location round trips", "authorization URIs do not carry a fragment and do not reuse the names of the OIDC request parameters"}
-	parts := map[string]func(*sim.Case){"redirects": c13Prop}
+	parts := map[string]func(*sim.Case){"redirects": c13Prop, "histories": c13Histories}
 	if r.Replay != "" {
 		r.ReplayFile(parts)
 		return
 	}
 	r.CheckKnown(parts)
 	r.Rapid("redirects", r.N(20000, 2000000), c13Prop)
+	r.Rapid("histories", r.N(6000, 200000), c13Histories)
 }
 
 // scopeSet is the canonical form of a scope list read as a set.
